@@ -358,6 +358,8 @@ func c03ForeignDriver(maxArity int) func(c *explore.Chooser, k int) *c03Case {
 		if ntp > n {
 			c.Skip("more type parameters than parameters")
 		}
+		// a type parameter that occurs only in the result: Go cannot infer it, the explicit type arguments must reach the call
+		resTP := !unitRes && !unitArg && c.Bool()
 		var params []argT
 		for i := 0; i < n; i++ {
 			a := ats[c.Choose(len(ats))]
@@ -399,8 +401,12 @@ func c03ForeignDriver(maxArity int) func(c *explore.Chooser, k int) *c03Case {
 		if unitRes {
 			res, goRes, ret = "()", "", ""
 		}
+		if resTP {
+			tps = append(append([]string{}, tps...), "R")
+			res, goRes, ret = "R", " R", "\tvar z R\n\treturn z\n"
+		}
 		tpDecl, goTp := "", ""
-		if ntp > 0 {
+		if len(tps) > 0 {
 			tpDecl = "<" + strings.Join(tps, ", ") + ">"
 			var g []string
 			for _, t := range tps {
@@ -436,23 +442,30 @@ func c03ForeignDriver(maxArity int) func(c *explore.Chooser, k int) *c03Case {
 			vals = append(vals, p.val)
 		}
 		fmt.Fprintf(&fo, "let fr%d () =\n", k)
+		rline := "r"
+		if resTP {
+			rline = "" // the zero value of R = string
+		}
 		emit := func(expr string) {
 			if unitRes {
 				fmt.Fprintf(&fo, "  %s\n  frt.Println \"done\"\n\n", expr)
 				cs.want = append(cs.want, callLine, "done")
 			} else {
 				fmt.Fprintf(&fo, "  %s |> frt.Println\n\n", expr)
-				cs.want = append(cs.want, callLine, "r")
+				cs.want = append(cs.want, callLine, rline)
 			}
 		}
 		head := qual
-		if form == 3 {
-			if ntp == 0 {
+		if form == 3 || resTP {
+			if ntp == 0 && !resTP {
 				c.Skip("explicit type arguments need type parameters")
 			}
 			var tas []string
 			for i := 0; i < ntp; i++ {
 				tas = append(tas, params[i].fo)
+			}
+			if resTP {
+				tas = append(tas, "string")
 			}
 			head = qual + "<" + strings.Join(tas, ", ") + ">"
 		}
@@ -475,7 +488,7 @@ func c03ForeignDriver(maxArity int) func(c *explore.Chooser, k int) *c03Case {
 					cs.want = append(cs.want, callLine, "done")
 				} else {
 					fmt.Fprintf(&fo, "  %s |> %s %s |> frt.Println\n\n", vals[n-1], head, strings.Join(vals[:n-1], " "))
-					cs.want = append(cs.want, callLine, "r")
+					cs.want = append(cs.want, callLine, rline)
 				}
 			}
 		case form == 2: // passed to slice.Map / slice.Iter: called once per element
